@@ -64,52 +64,32 @@ def outputText (v : Val) : M (Option Str) := do
   | .comp ty _ => pure (some (ty ++ " object".toList))
   | _ => pure none
 
-def fileNode (n : Str) : M (Option FsNode) := do
-  return ((← get).fs.find? (·.1 == n)).map (·.2)
-
-def setFileNode (n : Str) (node : FsNode) : M Unit := modify fun s =>
-  if s.fs.any (·.1 == n) then { s with fs := s.fs.map fun p => if p.1 == n then (n, node) else p }
-  else { s with fs := s.fs ++ [(n, node)] }
-
-/-- does the directory part of `n` exist -/
-def parentExists (n : Str) : M Bool := do
-  let rev := n.reverse.dropWhile (· != '/')
-  match rev with
-  | [] => pure true
-  | _ :: d =>
-    let dir := d.reverse
-    if dir.isEmpty then pure true
-    else match ← fileNode dir with
-      | some .dir => pure true
-      | _ => pure (dir == "/dev".toList)
-
 def findHandle (n : Str) : M (Option Handle) := do
   return (← get).handles.find? (·.name == n)
 
-def updHandle (n : Str) (f : Handle → Handle) : M Unit := modify fun s =>
-  { s with handles := s.handles.map fun h => if h.name == n then f h else h }
+/-- legality check of a file statement (no effect) -/
+def filePre (t : Tok) (op : FOp) : M Unit := do
+  let st ← get
+  match fpre { fs := st.fs, handles := st.handles } op with
+  | .ok () => pure ()
+  | .error m => rtErr t m
 
-/-- write-back of one handle at CLOSEFILE or at exit -/
-def flushHandle (h : Handle) : M Unit := do
-  if h.mode == .random && h.modified then
-    match ← fileNode h.name with
-    | some .devFull => pure ()
-    | some .dir => pure ()
-    | _ => setFileNode h.name (.file (Codec.renderFile h.records))
-  else pure ()
+/-- perform one file statement through the pure file layer; on an error nothing changes -/
+def doFile (t : Tok) (op : FOp) : M FRes := do
+  let st ← get
+  match fstep { fs := st.fs, handles := st.handles } op with
+  | .ok (fs', r) => set { st with fs := fs'.fs, handles := fs'.handles }; pure r
+  | .error m => rtErr t m
 
-/-- append text to an open WRITE / APPEND file; `false` when the OS rejects the write -/
-def appendToFile (n : Str) (data : Str) : M Bool := do
-  match ← fileNode n with
-  | some (.file s) => setFileNode n (.file (s ++ data)); pure true
-  | some .devFull => pure false
-  | some .dir => pure false
-  | none => setFileNode n (.file data); pure true
+def doFile0 (op : FOp) : M FRes := do
+  let st ← get
+  match fstep { fs := st.fs, handles := st.handles } op with
+  | .ok (fs', r) => set { st with fs := fs'.fs, handles := fs'.handles }; pure r
+  | .error m => rtErr0 m
 
-def closeAll : M Unit := do
-  let hs := (← get).handles
-  for h in hs do flushHandle h
-  modify fun s => { s with handles := [] }
+def closeAll : M Unit := modify fun st =>
+  let f := closeAllF { fs := st.fs, handles := st.handles }
+  { st with fs := f.fs, handles := f.handles }
 
 def codecDefs : M Codec.Defs := do
   let a ← scopeAct
@@ -152,9 +132,9 @@ def runBuiltin (id : Str) (args : List Val) : M Val := do
   | "STR_TO_NUM", [.str x] => pure (.real (strToReal x))
   | "IS_NUM", [.str x] => pure (.bool (bIsNum x))
   | "EOF", [.str f] =>
-    match ← findHandle f with
-    | none => rtErr0 .notOpen
-    | some h => if h.mode != .read then rtErr0 .wrongMode else pure (.bool h.rest.isEmpty)
+    match ← doFile0 (.eof f) with
+    | .bool b => pure (.bool b)
+    | _ => throw (.crash .other)
   | "LCASE", [.chr c] => pure (.chr (toLowerC c))
   | "UCASE", [.chr c] => pure (.chr (toUpperC c))
   | "ASC", [.chr c] => pure (.int (intOfByte c))
@@ -873,41 +853,8 @@ mutual
       | .openFile t fn mode =>
         tick t
         let name ← fileName f t fn
-        if (← findHandle name).isSome then rtErr t .alreadyOpen
-        else if ((name.reverse.takeWhile (· != '/')).length > 255) then rtErr t .openFailed   -- NAME_MAX
-        else
-          let node ← fileNode name
-          let okParent ← parentExists name
-          match mode, node with
-          | _, some .dir => rtErr t .openFailed
-          | .read, some (.file s) =>
-            modify fun st => { st with handles := st.handles ++ [{ name := name, mode := .read, rest := s }] }
-            pure .none
-          | .read, some .devFull => rtErr t .openFailed
-          | .read, none => rtErr t .openFailed
-          | .append, none => rtErr t .openFailed
-          | .append, some _ =>
-            modify fun st => { st with handles := st.handles ++ [{ name := name, mode := .append }] }
-            pure .none
-          | .write, some .devFull =>
-            modify fun st => { st with handles := st.handles ++ [{ name := name, mode := .write }] }
-            pure .none
-          | .write, _ =>
-            if !okParent then rtErr t .openFailed
-            else
-              setFileNode name (.file [])
-              modify fun st => { st with handles := st.handles ++ [{ name := name, mode := .write }] }
-              pure .none
-          | .random, none =>
-            if !okParent then rtErr t .openFailed
-            else
-              setFileNode name (.file [])
-              modify fun st => { st with handles := st.handles ++ [{ name := name, mode := .random }] }
-              pure .none
-          | .random, some (.file s) =>
-            modify fun st => { st with handles := st.handles ++ [{ name := name, mode := .random, records := Codec.loadFile s }] }
-            pure .none
-          | .random, some .devFull => rtErr t .openFailed
+        let _ ← doFile t (.open name mode)
+        pure .none
       | .readFile t fn id =>
         tick t
         let name ← fileName f t fn
@@ -916,47 +863,33 @@ mutual
         match existing with
         | some (_, s) => if s.ty != .str then rtErr t .typeMismatch
         | none => pure ()
-        match ← findHandle name with
-        | none => rtErr t .notOpen
-        | some h =>
-          if h.mode != .read then rtErr t .wrongMode
-          else
-            let loc ← match existing with
-              | some (a, s) =>
-                match s.ref with
-                | some l => pure l
-                | none => pure ({ act := a.id, isArr := false, name := s.name, path := [] } : Loc)
-              | none =>
-                addVar { name := id.val, ty := .str, val := .str [] }
-                let a ← curAct
-                pure ({ act := a.id, isArr := false, name := id.val, path := [] } : Loc)
-            if ← locIsConst loc then rtErr t .constAssign
-            let line := h.rest.takeWhile (· != '\n')
-            let rest := (h.rest.drop line.length).drop 1
-            updHandle name fun h => { h with rest := rest }
-            writeLoc t loc (.str line)
-            pure .none
+        filePre t (.readLine name)
+        let loc ← match existing with
+          | some (a, s) =>
+            match s.ref with
+            | some l => pure l
+            | none => pure ({ act := a.id, isArr := false, name := s.name, path := [] } : Loc)
+          | none =>
+            addVar { name := id.val, ty := .str, val := .str [] }
+            let a ← curAct
+            pure ({ act := a.id, isArr := false, name := id.val, path := [] } : Loc)
+        if ← locIsConst loc then rtErr t .constAssign
+        match ← doFile t (.readLine name) with
+        | .line line => writeLoc t loc (.str line); pure .none
+        | _ => throw (.crash .other)
       | .writeFile t fn e =>
         tick t
         let name ← fileName f t fn
-        match ← findHandle name with
-        | none => rtErr t .notOpen
-        | some h =>
-          if h.mode == .read || h.mode == .random then rtErr t .wrongMode
-          else
-            let v ← evalExpr f e
-            let txt ← writeText t v
-            if ← appendToFile name (txt ++ ['\n']) then pure .none
-            else rtErr t .openFailed
+        filePre t (.write name [])
+        let v ← evalExpr f e
+        let txt ← writeText t v
+        let _ ← doFile t (.write name txt)
+        pure .none
       | .closeFile t fn =>
         tick t
         let name ← fileName f t fn
-        match ← findHandle name with
-        | none => rtErr t .notOpen
-        | some h =>
-          flushHandle h
-          modify fun st => { st with handles := st.handles.filter (·.name != name) }
-          pure .none
+        let _ ← doFile t (.close name)
+        pure .none
       | .seek t fn addr =>
         tick t
         match ← evalExpr f addr with
@@ -964,23 +897,15 @@ mutual
           if a < 1 then rtErr t .seekRange
           else
             let name ← fileName f t fn
-            match ← findHandle name with
-            | none => rtErr t .notOpen
-            | some h =>
-              if h.mode != .random then rtErr t .wrongMode
-              else if a.toNat > h.records.length + 1 then rtErr t .seekRange
-              else
-                updHandle name fun h => { h with ptr := a.toNat - 1 }
-                pure .none
+            let _ ← doFile t (.seek name a)
+            pure .none
         | _ => rtErr t .typeMismatch
       | .getRecord t fn id =>
         tick t
         let name ← fileName f t fn
-        match ← findHandle name with
-        | none => rtErr t .notOpen
-        | some h =>
-          if h.mode != .random then rtErr t .wrongMode
-          else
+        filePre t (.get name)
+        do
+          do
             let v? ← lookupVar id.val
             let a? ← lookupArr id.val
             let tgt : Option (Loc × Ty) := match v?, a? with
@@ -996,22 +921,20 @@ mutual
               | .ptr _ => rtErr t .nonPrimitive
               | _ =>
                 if ← locIsConst loc then rtErr t .constAssign
-                match h.records[h.ptr]? with
-                | none => rtErr t .recordRead
-                | some rec =>
+                match ← doFile t (.get name) with
+                | .record rec =>
                   let cur ← readLoc loc
                   let defs ← codecDefs
                   match Codec.load defs cur rec with
                   | some (nv, _) => writeLoc t loc nv; pure .none
                   | none => rtErr t .recordRead
+                | _ => throw (.crash .other)
       | .putRecord t fn id =>
         tick t
         let name ← fileName f t fn
-        match ← findHandle name with
-        | none => rtErr t .notOpen
-        | some h =>
-          if h.mode != .random then rtErr t .wrongMode
-          else
+        filePre t (.put name [])
+        do
+          do
             let v? ← lookupVar id.val
             let a? ← lookupArr id.val
             let tgt : Option (Loc × Ty) := match v?, a? with
@@ -1027,10 +950,7 @@ mutual
               | .ptr _ => rtErr t .nonPrimitive
               | _ =>
                 let cur ← readLoc loc
-                let txt := Codec.dump cur
-                updHandle name fun h =>
-                  { h with records := if h.ptr < h.records.length then h.records.set h.ptr txt else h.records ++ [txt],
-                           modified := true }
+                let _ ← doFile t (.put name (Codec.dump cur))
                 pure .none
       | .procDef t name params body =>
         tick t
